@@ -215,7 +215,9 @@ impl<L: Language> NthChild<L> {
       parent
         .children()
         .filter(|n| n.is_named())
-        .filter_map(|child| rule.match_node_with_env(child, env))
+        // every sibling is tried on its own: bindings made for one sibling
+        // must not decide whether another sibling is counted
+        .filter_map(|child| rule.match_node_with_env(child, &mut Cow::Borrowed(env.as_ref())))
         .collect()
     } else {
       parent.children().filter(|n| n.is_named()).collect()
@@ -252,7 +254,14 @@ impl<L: Language> Matcher<L> for NthChild<L> {
     env: &mut Cow<MetaVarEnv<'tree, D>>,
   ) -> Option<Node<'tree, D>> {
     let index = self.find_index(&node, env)?;
-    self.position.is_matched(index).then_some(node)
+    if !self.position.is_matched(index) {
+      return None;
+    }
+    // the variables of `ofRule` are bound to what they capture on the node itself
+    if let Some(rule) = &self.of_rule {
+      rule.match_node_with_env(node.clone(), env)?;
+    }
+    Some(node)
   }
   fn potential_kinds(&self) -> Option<BitSet> {
     let rule = self.of_rule.as_ref()?;
